@@ -47,6 +47,7 @@ pub enum StageKind {
     Pipeline(&'static [Config]),
     Text,
     Entropy,
+    History,
     Sweep,
     WriteErr,
     /// exhaustive: every value of every small width through every arm/flavour (index = point)
@@ -101,6 +102,9 @@ pub fn stages(property: &str, tier: &str, scale: f64) -> Vec<Stage> {
             Stage { name: "entropy", arm_id: 5, kind: StageKind::Entropy, runs: n(600_000) },
             Stage { name: "pipeline all configurations", arm_id: 6, kind: StageKind::Pipeline(ALL_CFG), runs: n(500_000) },
             Stage { name: "text", arm_id: 7, kind: StageKind::Text, runs: n(200_000) },
+            // the "histories" part of the quantifier: decoded values, then sequences of public operations,
+            // canonical-limb and ordering invariants checked after every step (no fault dimension)
+            Stage { name: "history (operation sequences)", arm_id: 11, kind: StageKind::History, runs: n(1_000_000) },
         ],
         _ => vec![],
     }
@@ -249,6 +253,7 @@ fn plan_for_inner(stage: &Stage, seed: u64, restrict: &Restrict) -> Plan {
         StageKind::SmallValues | StageKind::ShortInputs(_) => unreachable!("indexed, not seeded"),
         StageKind::Text => gen::gen_text(seed, restrict),
         StageKind::Entropy => gen::gen_entropy(seed, restrict),
+        StageKind::History => gen::gen_history(seed, restrict),
         StageKind::Sweep => unreachable!(),
     }
 }
@@ -261,6 +266,7 @@ fn restrict_applies(stage: &Stage, cfg_codec: Option<&str>) -> bool {
         (StageKind::SmallValues | StageKind::ShortInputs(_), Some(_)) => false,
         (StageKind::Text, Some(c)) => matches!(c, "from_str" | "bits_from_str" | "from_str_radix" | "from_base_be" | "from_base_le"),
         (StageKind::Entropy, Some(c)) => crate::entropy::CODECS.contains(&c),
+        (StageKind::History, Some(c)) => c == "ops",
     }
 }
 
